@@ -17,8 +17,12 @@ VARIABLES l,
           cmem,    \* explicit memory cards in the handle's track (put_memory_card)
           cdisk,   \* explicit memory cards persisted by the last commit
           mmem,    \* the logic mesh in the handle (add_mesh_node / add_mesh_edge)
-          mdisk    \* the logic mesh persisted by the last commit
-tvars == <<vars, l, prev, qattr, qhist, cmem, cdisk, mmem, mdisk>>
+          mdisk,   \* the logic mesh persisted by the last commit
+          sides    \* files a test planted next to the memory (C19)
+tvars == <<vars, l, prev, qattr, qhist, cmem, cdisk, mmem, mdisk, sides>>
+\* C19: the sidecars create / open / open_read_only must refuse to run next to
+Forbidden(s) == s \in {"m.mv2-wal", "m.mv2-shm", "m.mv2-lock", "m.mv2-journal", ".m.mv2.wal", ".m.mv2.shm", ".m.mv2.lock", ".m.mv2.journal"}
+Blocked == \E s \in sides : Forbidden(s)
 MT == INSTANCE MeshTrack WITH MaxOps <- 0, mesh <- 0, n <- 0
 CT == INSTANCE CardsTrack WITH MaxCards <- 0, Times <- {}, c <- 0
 MQ == INSTANCE Mv2Query
@@ -88,10 +92,20 @@ ObservedHandle(o) ==
        /\ Chk("frame.blob", (o.full /\ Has(o, "blob_interleaved_ok")) => o.blob_interleaved_ok)   \* C07: concurrent blob readers
        /\ Chk("ro.file", o.ro => o.ro_unchanged)       \* C18: a read-only handle never changes the file
 
+\* what the test has planted next to the memory once this event is done
+SidesNow == IF Ev.ev = "reset" THEN {}
+            ELSE IF Ev.ev = "sidecar" /\ Ev.res.ok THEN sides \cup {Ev.x.sidecar}
+            ELSE IF Ev.ev = "rm_sidecars" THEN {}
+            ELSE sides
+SidesNext == SidesNow
+
 Observed(o) ==
   IF exists' = "broken"
     THEN PrintT(<<"DEVIATION", l, "D01_commit_growth">>)      \* reported; observations after the damage are not judged
-    ELSE ObservedFile(o) /\ ObservedHandle(o) /\ Chk("dir", o.dir = <<"m.mv2">>)
+    ELSE /\ (exists' # "no" => ObservedFile(o)) /\ ObservedHandle(o)
+         \* C19: nothing but the memory (and what the test itself planted) is in the directory after the call
+         /\ Chk("dir", LET want == (IF exists' # "no" THEN {"m.mv2"} ELSE {}) \cup SidesNow IN
+                        {o.dir[k] : k \in 1..Len(o.dir)} = want /\ Len(o.dir) = Cardinality(want))
 
 PayEnd(o) == IF Has(o, "payload_end") THEN o.payload_end ELSE 0
 
@@ -102,7 +116,7 @@ Matches == Chk("result", IF last'.res = "ok" THEN ResOk ELSE ResErr(last'.res))
 
 (* --------------------------------- events -------------------------------- *)
 TraceInit == l = 1 /\ Init /\ prev = [exists |-> "no", frames |-> <<>>, pend |-> <<>>, tseq |-> 0, tdseq |-> 0]
-             /\ qattr = EmptyMap /\ qhist = EmptyMap /\ cmem = <<>> /\ cdisk = <<>> /\ mmem = MT!Empty /\ mdisk = MT!Empty
+             /\ qattr = EmptyMap /\ qhist = EmptyMap /\ cmem = <<>> /\ cdisk = <<>> /\ mmem = MT!Empty /\ mdisk = MT!Empty /\ sides = {}
 
 TReset == /\ IsEvent("reset")
           /\ exists' = "no" /\ frames' = <<>> /\ pend' = <<>>
@@ -111,17 +125,25 @@ TReset == /\ IsEvent("reset")
           /\ ticket' = WithD(Tk(0, 0, 0, FALSE), Tk(0, 0, 0, FALSE)) /\ cpe' = 0 /\ acked' = <<>>
           /\ last' = Obs("init", "ok", 0)
 
-TCreate == IsEvent("create") /\ Create /\ Matches /\ Observed(Ev.obs)
+TCreate == IsEvent("create") /\ ~Blocked /\ Create /\ Matches /\ Observed(Ev.obs)
+\* C19: next to a forbidden sidecar create / open / open_read_only refuse to run and change nothing
+TRefused == /\ l <= Len(Rec) /\ Ev.ev \in {"create", "open", "open_ro"} /\ l' = l + 1 /\ exists # "broken" /\ Blocked /\ hdl = "none"
+            /\ Reject(Ev.ev, "AuxiliaryFileDetected") /\ Matches /\ Observed(Ev.obs)
+TSidecar == /\ l <= Len(Rec) /\ Ev.ev \in {"sidecar", "rm_sidecars"} /\ l' = l + 1 /\ exists # "broken" /\ ResOk
+            /\ last' = Obs(Ev.ev, "ok", 0)
+            /\ UNCHANGED <<exists, frames, pend, wal, hdl, snap, dirty, pins, noAuto, ticket, cpe, acked>>
+            /\ Observed(Ev.obs)
+
 
 TCommit == /\ IsEvent("commit")
            /\ Commit(NthOrZero(NewLens, 1), PayEnd(Ev.obs))
            /\ Matches /\ Observed(Ev.obs)
 
-TOpen == /\ IsEvent("open")
+TOpen == /\ IsEvent("open") /\ ~Blocked
          /\ OpenRW(NthOrZero(NewLens, 1), PayEnd(Ev.obs))
          /\ Matches /\ Observed(Ev.obs)
 
-TOpenRO == IsEvent("open_ro") /\ OpenRO /\ Matches /\ Observed(Ev.obs)
+TOpenRO == IsEvent("open_ro") /\ ~Blocked /\ OpenRO /\ Matches /\ Observed(Ev.obs)
 
 TClose == /\ IsEvent("close")
           /\ Close(NthOrZero(NewLens, 1), cpe)
@@ -324,7 +346,7 @@ TCorrupt ==
      /\ (Has(e, "ro") /\ e.ro.verify.ok /\ e.ro.verify.val = "Passed" /\ e.ro.open.ok =>
             Chk("corrupt.verify", TableEqOrErr(frames, e.ro.obs) \/ TableEqOrErr(tab, e.ro.obs)))
 
-TraceStep == \/ TReset \/ TCreate \/ TCommit \/ TOpen \/ TOpenRO \/ TClose \/ TAbandon \/ TLegacy
+TraceStep == \/ TReset \/ TCreate \/ TRefused \/ TSidecar \/ TCommit \/ TOpen \/ TOpenRO \/ TClose \/ TAbandon \/ TLegacy
              \/ TPut \/ TUpdate \/ TDelete \/ TVacuum \/ TTicket \/ TSignedTicket \/ TBindOnly \/ TBind \/ TUnbind \/ TBeginBatch \/ TEndBatch \/ TCommitSkip \/ TFinalize
              \/ TTimeline \/ TByUri \/ TVecSet \/ TVerify \/ TDoctor
              \/ TBroken
@@ -525,8 +547,8 @@ TwinOk == Has(Ev, "twin") =>
 
 TraceNext == ((TraceStep \/ TSearch \/ TVSearch \/ TOtherSearch \/ TCardPut \/ TCardGet \/ TCards \/ TMeshPut \/ TMesh) /\ TwinOk
               /\ prev' = Snap /\ qattr' = QAttrNext /\ qhist' = QHistNext /\ cmem' = CMemNext /\ cdisk' = CDiskNext
-              /\ mmem' = MMemNext /\ mdisk' = MDiskNext)
-             \/ ((TCrash \/ TCorrupt) /\ UNCHANGED <<qattr, qhist, cmem, cdisk, mmem, mdisk>>)
+              /\ mmem' = MMemNext /\ mdisk' = MDiskNext /\ sides' = SidesNext)
+             \/ ((TCrash \/ TCorrupt) /\ UNCHANGED <<qattr, qhist, cmem, cdisk, mmem, mdisk, sides>>)
 
 TraceSpec == TraceInit /\ [][TraceNext]_tvars
 
